@@ -12,7 +12,12 @@
 // entry of kind unknown kty / duplicate / encryption key / undecodable known kty /
 // non-object at the first, middle or last position; plain; empty; only unknown
 // kty) is the sequential dimension: see docKinds and docScenarios — one or two
-// callers only, all their schedules. Quiescence between steps comes from
+// callers only, all their schedules. WHICH keys the provider publishes (how many
+// candidates a token has in the cache and in a download: keys without kid, a bare
+// JWK, keys of another algorithm, a kid whose key is replaced) is a second
+// sequential dimension: see keyDefs, mustAccept/mayAccept and ambScenarios — one
+// caller on every ordered pair of key sets, two callers on three-step rotations.
+// Quiescence between steps comes from
 // testing/synctest, so an execution is a pure function of its choice sequence.
 package c13
 
@@ -107,9 +112,9 @@ var tokKinds = map[string]tokKind{
 	"nokid2": {"nokid2", "", "k2", ""},   // no key id, signed by the key that is rotated in
 	"forged": {"forged", "k1", "k3", ""}, // names k1 but signed by the attacker key
 	// ambiguity family only
-	"k9":     {"k9", "k9", "k9", ""},          // names k9, signed by its material
-	"rnokid": {"rnokid", "", "rn", "RS256"},   // RS256 token without key id
-	"k1b":    {"k1b", "k1", "k1b", ""},        // names k1, signed by the material that replaced k1's under the same kid
+	"k9":     {"k9", "k9", "k9", ""},        // names k9, signed by its material
+	"rnokid": {"rnokid", "", "rn", "RS256"}, // RS256 token without key id
+	"k1b":    {"k1b", "k1", "k1b", ""},      // names k1, signed by the material that replaced k1's under the same kid
 }
 
 func (tk tokKind) alg() string {
@@ -364,17 +369,17 @@ func mayAccept(kind string, K []string) bool {
 // scenarios
 
 type scen struct {
-	Tokens    []string `json:"tokens"` // one per caller
-	Skip      bool     `json:"skip_remote_check"`
-	Warm      bool     `json:"warm_cache"`
-	Rot       string   `json:"rotation"`                     // none | add (k1 -> k1,k2) | replace (k1 -> k2)
-	RotPre    bool     `json:"rotated_before_callers_start"` // the provider rotated after the cache was warmed, before any explored call; otherwise the rotation happens at some JWKS answer the explorer picks
-	MaxFail   int      `json:"max_failing_fetches"`
-	MaxCancel int      `json:"max_cancels"`
-	Deadline  bool     `json:"cancel_by_deadline"` // callers' contexts end by a deadline (caller i: start+(i+1)h) instead of an explicit cancel; expire(ci) advances the fake clock past caller i's deadline
-	FailKinds []string `json:"fail_kinds"`
-	Sets      [][]string `json:"key_sets,omitempty"`           // ambiguity family: the provider's successive key sets (names in keyDefs), overrides Rot; every "rotate+ok" answer advances by one
-	Doc       string   `json:"jwks_document,omitempty"` // "<entry kind>@<first|middle|last>", "plain", "empty", "onlyunk"; "" = the default document (see jwksBody). Applies to every 200 answer of the explored history; the warm-up download always gets the default document
+	Tokens    []string   `json:"tokens"` // one per caller
+	Skip      bool       `json:"skip_remote_check"`
+	Warm      bool       `json:"warm_cache"`
+	Rot       string     `json:"rotation"`                     // none | add (k1 -> k1,k2) | replace (k1 -> k2)
+	RotPre    bool       `json:"rotated_before_callers_start"` // the provider rotated after the cache was warmed, before any explored call; otherwise the rotation happens at some JWKS answer the explorer picks
+	MaxFail   int        `json:"max_failing_fetches"`
+	MaxCancel int        `json:"max_cancels"`
+	Deadline  bool       `json:"cancel_by_deadline"` // callers' contexts end by a deadline (caller i: start+(i+1)h) instead of an explicit cancel; expire(ci) advances the fake clock past caller i's deadline
+	FailKinds []string   `json:"fail_kinds"`
+	Sets      [][]string `json:"key_sets,omitempty"`      // ambiguity family: the provider's successive key sets (names in keyDefs), overrides Rot; every "rotate+ok" answer advances by one
+	Doc       string     `json:"jwks_document,omitempty"` // "<entry kind>@<first|middle|last>", "plain", "empty", "onlyunk"; "" = the default document (see jwksBody). Applies to every 200 answer of the explored history; the warm-up download always gets the default document
 }
 
 // seq is the sequence of key sets the provider goes through (element 0 = the initial set,
@@ -1465,8 +1470,10 @@ func racePass(c *engine.Check) {
 	args := []string{"test", "-c", "-race", "-vet=off", "-o", bin}
 	if ov := os.Getenv("VERIF_MUTANT_OVERLAY"); ov != "" {
 		args = append(args, "-overlay", ov)
-		bin = filepath.Join(root, ".build", "c13race.mut.test")
+		// one binary per process: several mutant runs of this check may be in flight at once
+		bin = filepath.Join(root, ".build", fmt.Sprintf("c13race.mut.%d.test", os.Getpid()))
 		args[5] = bin
+		defer os.Remove(bin)
 	}
 	args = append(args, "./checks/c13/race")
 	cmd := exec.Command("go1.26.8", args...)
